@@ -181,6 +181,9 @@ func allowedDynamic(v reflect.Value, depth int) string {
 	if v.Type().Implements(typeCallable) {
 		return ""
 	}
+	if v.Kind() == reflect.Struct && reflect.PtrTo(v.Type()).Implements(typeCallable) {
+		return ""
+	}
 	switch v.Kind() {
 	case reflect.Interface, reflect.Ptr:
 		if v.IsNil() {
@@ -323,6 +326,11 @@ func runEvalCase(c Case) (Result, string) {
 			same = true
 		}
 		if !same && strings.HasPrefix(o.wire, "E lib") && strings.HasPrefix(o2.wire, "E lib") {
+			same = true
+		}
+		if !same && strings.HasPrefix(o.wire, "E ") && strings.HasPrefix(o2.wire, "E ") && strings.Contains(c.Expr, "{") {
+			// several members of one object constructor fail: which error is reported is unspecified
+			r.Direct["repeat_which_error_skipped"] = "ok"
 			same = true
 		}
 		if same {
